@@ -24,7 +24,7 @@ Print Assumptions C12_count.
    WriteTo returns a non-nil error. *)
 Theorem C12_sink_failure_reported : forall (date msgid : bytes) (rb : list bytes) (m : msg) (k : sink),
   fresh_sink k ->
-  failed (snk (fst (write_msg date msgid m (mw_init k rb)))) = true ->
+  failed (snk (fst (write_msg date msgid rb m (mw_init k)))) = true ->
   r_err (write_to date msgid rb m k) = true.
 Proof. exact write_to_sink_failure_reported. Qed.
 Print Assumptions C12_sink_failure_reported.
